@@ -151,6 +151,33 @@ def run(p):
     for _ in range(p.n(500, 20000)):
         t = random_dated_set(rng, None)
         check_reversible(p, t, None, X.surface_point(rng), rand_epoch(rng, t), worst)
+    # (c2) sets obtained from other sets and kept: moved to another epoch, negated, moved again ... — each is a set in its own
+    #      right (the oracle reads the numbers it shows) and is applied at an epoch of its own
+    def derived(t):
+        e1, e2 = rand_epoch(rng, t), rand_epoch(rng, t)
+        kind = rng.choice(['moved', 'moved-negated', 'negated-moved', 'moved-moved', 'negated-negated', 'moved-negated-moved'])
+        if kind == 'moved':
+            return kind, t + e1
+        if kind == 'moved-negated':
+            return kind, -(t + e1)
+        if kind == 'negated-moved':
+            return kind, (-t) + e1
+        if kind == 'moved-moved':
+            return kind, (t + e1) + e2
+        if kind == 'negated-negated':
+            return kind, -(-t)
+        return kind, (-(t + e1)) + e2
+    for _ in range(p.n(500, 15000)):
+        base = rng.choice(X.DATED)[1] if rng.random() < 0.5 else random_dated_set(rng, None)
+        try:
+            kind, t = derived(base)
+        except Exception:  # noqa  (the operators themselves are C11's business)
+            continue
+        p.stats.add('derived:' + kind)
+        xyz = X.surface_point(rng) if rng.random() < 0.7 else gens.rand_xyz(rng, 1e7)
+        check_formula(p, t, None, xyz, rand_epoch(rng, t), worst)
+        if rng.random() < 0.5:
+            check_reversible(p, t, None, X.surface_point(rng), rand_epoch(rng, t), worst)
     # (d) ATRF2014 <-> GDA2020
     e2020 = datetime.date(2020, 1, 1)
     for _ in range(p.n(1000, 40000)):
